@@ -72,6 +72,17 @@ def isInstance (k : GKind) (cls : String) : Bool :=
   let c := gkindClass k
   c == cls || ((classBases.lookup c).getD []).contains cls
 
+/-- one comparison of SocketConfig.__eq__ (the attribute names are the generated `socketEqAttrs`) -/
+def sAttrEq (n : String) (a b : GConfig) : Bool :=
+  if n == "url" then a.socket == b.socket
+  else if n == "backlog" then a.socket_backlog == b.socket_backlog
+  else if n == "mode" then a.socket_mode == b.socket_mode
+  else if n == "owner" then a.socket_owner == b.socket_owner
+  else false
+
+/-- SocketConfig.__eq__ (both operands are SocketConfig instances: every fcgi group has one) -/
+def socketEq (a b : GConfig) : Bool := socketEqAttrs.all fun n => sAttrEq n a b
+
 def gAttrEq (n : String) (a b : GConfig) : Bool :=
   if n == "name" then a.name == b.name
   else if n == "priority" then a.priority == b.priority
@@ -79,7 +90,7 @@ def gAttrEq (n : String) (a b : GConfig) : Bool :=
   else if n == "buffer_size" then a.buffer_size == b.buffer_size
   else if n == "pool_events" then a.pool_events == b.pool_events
   else if n == "result_handler" then a.result_handler == b.result_handler
-  else if n == "socket_config" then a.socket == b.socket      -- SocketConfig.__eq__ compares `url`
+  else if n == "socket_config" then socketEq a b
   else false
 
 def groupEq (a b : GConfig) : Bool :=
